@@ -231,6 +231,45 @@ func §E() {
 	}
 }
 `, "eta:funcvar"),
+		Raw("opt-plain-closure-with-three-clause-loop-capturing-variable", `
+func §gen() ITER[int] GEN[int]{
+	squares := func(n int) []func() int {
+		var fs []func() int
+		for i := 0; i < n; i++ {
+			fs = append(fs, func() int { return i * i })
+		}
+		return fs
+	}
+	YIELD(-1)
+	for _, f := range squares(4) {
+		YIELD(f())
+	}
+	RETNIL
+}GEN
+`+StdEntry, "closure:loopvar"),
+		Raw("opt-plain-closure-with-labelled-loop-switch-init-and-defer", `
+func §gen() ITER[int] GEN[int]{
+	count := func(limit int) (n int) {
+		defer func() { n += 1000 }()
+	outer:
+		for a := 0; a < 4; a++ {
+			for b := 0; b < 4; b++ {
+				switch s := a * b; {
+				case s > limit:
+					break outer
+				case s == 2:
+					continue outer
+				}
+				n++
+			}
+		}
+		return n
+	}
+	YIELD(count(3))
+	YIELD(count(100))
+	RETNIL
+}GEN
+`+StdEntry, "closure:labels"),
 		Raw("opt-closure-get-after-yield", `
 type §box struct{ v int }
 
